@@ -1,2 +1,4 @@
 import PugProofs.Props.C17
 import PugProofs.Props.C18
+import PugProofs.Props.C01
+import PugProofs.Props.C02
